@@ -128,12 +128,9 @@ def updateFields (o : Obj) (oid : Nat) : List FieldIdx → Res (List FieldIdx)
   | [] => .ok []
   | fi :: rest =>
     match fieldVal fi o with
-    | .ok v =>
-      match fi.idx.update v oid with
-      | none => .panic
-      | some l' => do
-        let rest' ← updateFields o oid rest
-        pure ({ fi with idx := l' } :: rest')
+    | .ok v => do
+      let rest' ← updateFields o oid rest
+      pure ({ fi with idx := fi.idx.update v oid } :: rest')
     | .err e => .err e
     | .panic => .panic
 
@@ -160,22 +157,14 @@ def insertOrUpdate (ix : ObjIndex) (o : Obj) : Res ObjIndex := do
     pure { next := ix.next + 1, ids := ix.ids ++ [(ix.next, o.uuid)], fields := fs }
 
 /-- delete one oid from every field index -/
-def deleteFields (oid : Nat) : List FieldIdx → Res (List FieldIdx)
-  | [] => .ok []
-  | fi :: rest =>
-    match fi.idx.delete oid with
-    | none => .panic
-    | some l' => do
-      let rest' ← deleteFields oid rest
-      pure ({ fi with idx := l' } :: rest')
+def deleteFields (oid : Nat) (fs : List FieldIdx) : List FieldIdx :=
+  fs.map (fun fi => { fi with idx := fi.idx.delete oid })
 
 /-- `objIndex.deleteByUUID` -/
-def deleteByUUID (ix : ObjIndex) (uuid : Nat) : Res ObjIndex :=
+def deleteByUUID (ix : ObjIndex) (uuid : Nat) : ObjIndex :=
   match ix.oidOf uuid with
-  | none => .ok ix
-  | some oid => do
-    let fs ← deleteFields oid ix.fields
-    pure { ix with fields := fs, ids := ix.ids.filter (fun p => p.1 != oid) }
+  | none => ix
+  | some oid => { ix with fields := deleteFields oid ix.fields, ids := ix.ids.filter (fun p => p.1 != oid) }
 
 def field? (ix : ObjIndex) (name : String) : Option FieldIdx :=
   ix.fields.find? (fun f => f.name == name)
